@@ -67,6 +67,33 @@ func (u *Universe) Implementers(it reflect.Type) []reflect.Type {
 	return out
 }
 
+// Ifaces lists the interface types that fields of registered types are declared with (sorted by name).
+func (u *Universe) Ifaces() []reflect.Type {
+	seen := map[reflect.Type]bool{}
+	var out []reflect.Type
+	var walk func(t reflect.Type)
+	walk = func(t reflect.Type) {
+		switch t.Kind() {
+		case reflect.Interface:
+			if t != TObject && t.NumMethod() > 0 && !seen[t] {
+				seen[t] = true
+				out = append(out, t)
+			}
+		case reflect.Slice:
+			walk(t.Elem())
+		}
+	}
+	for _, t := range u.Types {
+		if t.Kind() == reflect.Ptr && t.Elem().Kind() == reflect.Struct {
+			for i := 0; i < t.Elem().NumField(); i++ {
+				walk(t.Elem().Field(i).Type)
+			}
+		}
+	}
+	sort.Slice(out, func(i, j int) bool { return out[i].String() < out[j].String() })
+	return out
+}
+
 const inf = 1 << 20
 
 func (u *Universe) typeCost(t reflect.Type) int {
